@@ -41,6 +41,11 @@ CLAIMED = {
     text='Projective measurement is specified over exact Z[w] state vectors (Born marginals in Z[sqrt2], projection onto the outcome). TLC enumerates every n<=5 (6 thorough), every non-empty ascending qubit subset and ten structured state families (basis, product, GHZ, W, graph, zero-probability outcomes, Clifford+T), checking the measurement axioms on the model (probabilities real and summing to the norm, repeated measurement idempotent, projections resolve the state); for each configuration the real measure_quantum_vector is run over seeds until every outcome of the support was seen (remaining outcomes are forced through a Generator subclass) and probabilities, outcome membership, post-measurement state and the repeated measurement are compared with the exact values. Mid-circuit: TLC simulates circuits with measure gates, drawing outcomes from the support of the state at that point; the programs are replayed through real Circuit/MeasureGate objects and the recorded bitstr/probability/final state compared.',
     note='Trusted: TLC/SANY, tolerance 1e-9; forced outcomes bypass only the RNG draw (np_rng.choice), which C10 covers.',
     technique='TLA+ spec of projective measurement over Z[w]; TLC exhaustive enumeration of (n, subset, state family) + simulation of circuits with measurement; replay into the code'),
+ 'C14': dict(
+    cat='model_checking', ref='6/C14',
+    text='Every Cayley table the library constructs (S_n, A_n, D_3..D_12, C_2..C_12, (Z/n)^* n<=24, V4, Q8) is exported and the group axioms are evaluated by TLC over ALL element triples; the group is identified by isomorphism invariants (order, element-order profile, commutativity) computed by TLC from the table and from the reference construction (permutations / presentations) in the spec; the left-regular form is checked to be a faithful homomorphism. Irreducible blocks: sum d^2 = |G|, #irreps = #classes (classes computed by TLC), and for groups whose characters are all rational (decided by TLC from the table) the integer characters must be class functions satisfying row orthogonality in Z. p(N) for N<=60 against the pentagonal recurrence, the Young-diagram list against the enumerated partition set, and the Young lattice is model-checked as a state machine (every standard filling with N<=8 / 10 is a state; branching rule and standardness invariants): get_all_young_tableaux must return exactly the states of each shape, distinct, hook-length many.',
+    note='NOT covered: entry-wise unitarity/homomorphism of the floating irreducible blocks, irrational character values. S_5/A_5 (order 120/60) only in thorough.',
+    technique='TLA+ specs of finite groups, partitions and the Young lattice; TLC exhaustive evaluation over all triples / all lattice states; TLC trace validation of recorded library outputs'),
  'C19': dict(
     cat='model_checking', ref='6/C19',
     text='For each shipped code the encoder gate list is read from the live object and handed to TLC as the program: TLC derives the stabilizer generators with the Clifford tableau, decides Knill-Laflamme for EVERY Pauli error of weight 1..d-1 (one state per error; pull-back rule cross-checked against the textbook commutation/group-membership formulation), and decides that each listed stabilizer string lies in +<S>. The real code words, knill_laflamme_inner_product on make_error_list, the shipped stabilizer circuits, make_error_list / make_asymmetric_error_set (n<=6, d<=4, four Z-weights) and quantum_weight_enumerator are then compared with / validated by TLC against those decisions (full <i|E|j> matrices incl. weight-d errors that violate KL).',
